@@ -627,11 +627,13 @@ func (conn *Conn) Close() error {
 	if conn.die != nil {
 		conn.die()
 	}
-	// Drain both in and out channels to avoid a deadlock if the buffers
-	// have filled. See TestSendDeadlockOnFullBuffer in connection_test.go.
-	conn.drainIn()
-	conn.drainOut()
+	// Keep draining both in and out channels until all goroutines have
+	// exited, to avoid a deadlock if the buffers have filled or are being
+	// refilled. See TestSendDeadlockOnFullBuffer in connection_test.go.
+	done := make(chan struct{})
+	go drain(conn.in, conn.out, done)
 	conn.wg.Wait()
+	close(done)
 	conn.mu.Unlock()
 	// Dispatch after closing connection but before reinit
 	// so event handlers can still access state information.
@@ -639,23 +641,14 @@ func (conn *Conn) Close() error {
 	return err
 }
 
-// drainIn sends all data buffered in conn.in to /dev/null.
-func (conn *Conn) drainIn() {
+// drain sends all data arriving on in and out to /dev/null until done
+// is closed.
+func drain(in chan *Line, out chan string, done chan struct{}) {
 	for {
 		select {
-		case <-conn.in:
-		default:
-			return
-		}
-	}
-}
-
-// drainOut does the same for conn.out. Generics!
-func (conn *Conn) drainOut() {
-	for {
-		select {
-		case <-conn.out:
-		default:
+		case <-in:
+		case <-out:
+		case <-done:
 			return
 		}
 	}
